@@ -10,6 +10,27 @@ COMMON_ASSUMPTIONS = [
 ]
 
 PROPS = {
+    "C06": {
+        "engines": [{"name": "varsign"},
+                    {"name": "varsign_tz", "env": {"TZ": "Asia/Tokyo"}},
+                    {"name": "varsign_tz", "env": {"TZ": "America/St_Johns"}},
+                    {"name": "varsign_tz", "env": {"TZ": "UTC"}}],
+        "level": "exploration",
+        "technique": "simulated clock (go1.26 testing/synctest bubble advanced to a seeded instant) x simulated process time zone (time.Local assignment and TZ environment), byte-exact layout oracle and independent CMS verification of the detached signature",
+        "design_ref": "DESIGN.md section 3 (C06), 2.3 (simclock)",
+        "level_text": ("'The timestamp is the current time in UTC' is a statement about the clock and the process configuration, neither of which a test can vary. The engine owns both: "
+                       "every run sets the fake clock to a seeded instant (2000-2049, mass on second/minute/hour/day/month/year/leap-day rollovers and DST windows) and the zone to one of 42 "
+                       "configurations (fixed offsets -12:00..+14:00 incl. :30/:45, IANA zones with DST), and checks the produced bytes field by field; the SignedData is verified by an "
+                       "independent reader over the rebuilt buffer. Exploration: instants, zones, names, GUIDs, masks, payloads and keys are sampled."),
+        "level_note": ("Trusted: refcms (encoding/asn1 + crypto/rsa, written from RFC 2315/5652), the synctest fake clock, time/tzdata. Instants stop at 2049-12-31 (UTCTime limit of the "
+                       "signingTime attribute, DESIGN.md section 6). The additionally returned *EFIVariableAuthentication2 is not part of the statement and not asserted on."),
+        "rule": ("Per run: zone, instant, variable (predefined authenticated / any predefined / generated ASCII name 1-64, GUID, mask incl. APPEND_WRITE), payload (empty database, hash lists, "
+                 "certificate lists, raw bytes 0-1000), pool key (RSA 2048/3072/4096), API (SignEFIVariable or WriteSignedUpdate through the simulated filesystem). Every run is non-trivial "
+                 "(one signed update produced and judged); distinct = distinct event-log hash. A second engine runs the same generator with the zone taken from the TZ environment variable of the worker."),
+        "exhaustive": lambda tier: False,
+        "components": {"real": REAL, "stub": "synctest fake clock, time.Local / TZ zone configuration, simfs recorder (WriteSignedUpdate path)"},
+        "assumptions": COMMON_ASSUMPTIONS,
+    },
     "C09": {
         "engines": [{"name": "dbhist"}],
         "level": "exploration",
@@ -96,6 +117,7 @@ ENGINE_KINDS = {
     "fstrace": "recording simulated efivarfs with a firmware model; trace oracle at the filesystem boundary",
     "varstore": "seeded write/read histories on the in-memory store against a register model (+ porcupine)",
     "dbhist": "seeded edit histories against an ordered-entry reference model; encode/decode as restart",
+    "varsign_tz": "same as varsign, zone configured through the TZ environment variable of the worker process",
     "varsign": "simulated clock (synctest) x zone configurations; byte-exact layout and independent CMS verification",
     "signhist": "seeded signing histories on generated PE images under a simulated clock; independent PE/CMS readers as oracle",
     "sched": "cooperative seeded scheduler over real goroutines parked at yield points; sequential-history and race-detector modes",
@@ -107,7 +129,6 @@ NOT_APPLICABLE = {
     "C03": "claimed in DESIGN.md (engine signhist); check not built yet",
     "C04": "same as C02 for (*PKCS7).Verify: a pure verdict over crafted blobs",
     "C05": "acceptance of produced signatures by third-party verifiers is a pure input->output conformance claim; the only seam (signing time) does not enter the verdict",
-    "C06": "claimed in DESIGN.md (engine varsign); check not built yet",
     "C07": "encode/decode inverse is a pure codec property",
     "C08": "accept/reject of a byte string by the decoder is pure; the decoder reads its io.Reader once, front to back, so EOF at instant k is exactly input of length k and a fault schedule degenerates to input mutation",
     "C10": "descriptor/WIN_CERTIFICATE round-trip and consumed-length accounting are pure codec properties",
